@@ -327,6 +327,57 @@ def localmg_harness(ns, nf, nc, smoother, inds_f, inds_c):
     return run
 
 
+def hmultigrid_driver_harness(enc=None, transform=None):
+    """solve_hmultigrid hands the caller's tolerance and iteration limit (and the system, the non-Dirichlet dofs and the cycle built for the
+    requested strategy/smoother) to the generic driver and returns the driver's answer unchanged: then the stopping rule proved for
+    iterative_solve is the stopping rule of the hierarchical driver.  The space, the cycle factory and the generic driver are recording stubs."""
+    rec = {}
+    def local_mg_step(hs, A, f, Ps, inds, smoother='symmetric_gs', smooth_steps=2):
+        rec['cycle'] = dict(hs=hs, A=A, f=f, Ps=Ps, inds=inds, smoother=smoother); return ('cycle', id(rec))
+    def iterative_solve(step, A, f, x0=None, active_dofs=None, tol=1e-8, maxiter=5000):
+        rec['drv'] = dict(step=step, A=A, f=f, x0=x0, active_dofs=active_dofs, tol=tol, maxiter=maxiter); return ('x', 'iterations')
+    ns = {'np': SymNP(), 'local_mg_step': local_mg_step, 'iterative_solve': iterative_solve}
+    srcload.load_defs('pyiga/solvers.py', ['solve_hmultigrid'], ns, encoded=enc, transform=transform, closure=False)
+    def run(c):
+        rec.clear()
+        tol = Sym(z3.Real('tol')); mi = Sym(z3.Int('maxiter')); c.assume(z3.And(tol.t > 0, mi.t >= 0))
+        class HS:
+            def virtual_hierarchy_prolongators(self): return ('Ps',)
+            def non_dirichlet_dofs(self): return ('free dofs',)
+            def indices_to_smooth(self, strategy): return ('inds', strategy)
+        hs = HS(); A = object(); f = object()
+        for strategy, smoother in (('cell_supp', 'gs'), ('new', 'exact'), ('func_supp', 'symmetric_gs')):
+            out = ns['solve_hmultigrid'](hs, A, f, strategy=strategy, smoother=smoother, tol=tol, maxiter=mi)
+            d, cy_ = rec.get('drv', {}), rec.get('cycle', {})
+            ok = (out == ('x', 'iterations') and d.get('A') is A and d.get('f') is f and d.get('active_dofs') == ('free dofs',) and d.get('step') == ('cycle', id(rec))
+                  and cy_.get('hs') is hs and cy_.get('A') is A and cy_.get('f') is f and cy_.get('Ps') == ('Ps',) and cy_.get('inds') == ('inds', strategy) and cy_.get('smoother') == smoother)
+            c.check(z3.BoolVal(bool(ok)), 'solve_hmultigrid: system, free dofs, cycle (strategy, smoother) handed to the generic driver, answer returned unchanged')
+            c.check(z3.And(sx._toreal(lift(d.get('tol', 0))) == tol.t, sx._toreal(lift(d.get('maxiter', -1))) == z3.ToReal(mi.t)),
+                    'solve_hmultigrid: the requested tolerance and iteration limit are the ones the driver stops at')
+        c.witness('hmultigrid driver')
+    return run
+
+
+REPLAY_HMG = r'''
+import sys, json, io, contextlib, numpy as np
+w = json.load(sys.stdin)
+from pyiga import bspline, hierarchical, assemble, vform, geometry, solvers
+kvs = 2 * (bspline.make_knots(2, 0.0, 1.0, 4),)
+hs = hierarchical.HSpace(kvs, bdspecs=[(0, 0), (0, 1), (1, 0), (1, 1)]); hs.refine({0: {(0, 0), (0, 1), (1, 0), (1, 1)}})
+geo = geometry.unit_square()
+A = assemble.assemble(vform.stiffness_vf(2), hs, geo=geo); f = assemble.assemble(vform.L2functional_vf(2, physical=True), hs, geo=geo, f=lambda x, y: 1.0)
+bad = []
+with contextlib.redirect_stdout(io.StringIO()):
+    x, it_full = solvers.solve_hmultigrid(hs, A, f, tol=1e-10)
+    for mi in (1, 2):
+        x, it = solvers.solve_hmultigrid(hs, A, f, tol=1e-10, maxiter=mi)
+        if it_full > mi and it != np.inf: bad.append('maxiter=%d: reported %s iterations (needs %s), the limit was not applied / reported' % (mi, it, it_full))
+    x, it = solvers.solve_hmultigrid(hs, A, f, tol=1e-2)
+    if not (it <= it_full): bad.append('tol=1e-2 took %s iterations, tol=1e-10 took %s' % (it, it_full))
+print(json.dumps({'reproduced': bool(bad), 'bad': bad}))
+'''
+
+
 def localmg_energy_harness(ns, nf, nc, inds_f, inds_c):
     """one local multigrid cycle with exact subspace solves on a symbolic SPD system (A = L L^T, diag(L) > 0) from an arbitrary iterate:
     the energy norm of the error does not increase.  Each exact solve is accompanied by two lemmas that are PROVED on the path before
@@ -451,24 +502,24 @@ def main():
                   'print -> no-op']
     run.assumptions += ['reals for doubles', 'nonzero diagonal (documented precondition)', 'CSR without duplicate entries', 'energy claim: symmetric matrix with a_ii > 0 for the updated row '
                         '(a sweep is a sequence of such steps, so the claim extends to any sweep/iteration count on SPD systems)']
-    run.out_of_scope += ['convergence rates; "twogrid converges"', 'solve_hmultigrid end to end', 'real hierarchical spaces (smoothing sets, prolongators): thorough tier / C03-C05',
+    run.out_of_scope += ['convergence rates; "twogrid converges"', 'solve_hmultigrid end to end on real spaces (its forwarding of tol/maxiter/strategy/smoother to the generic driver is checked; smooth_steps is not forwarded by the library and is not part of the property)', 'real hierarchical spaces (smoothing sets, prolongators): thorough tier / C03-C05',
                          'energy non-increase of cycles with Gauss-Seidel smoothers (only the cycle with exact subspace solves is decided)']
     run.bounds = {'matrix size': 'n = 3 (quick), 4 (thorough)', 'structures': 'dense/tridiagonal/arrow/triangular incl. unsorted column indices',
-                  'iterations': '<= 2', 'index lists': 'arbitrary sequences of length <= 3 (with repetition)', 'drivers': 'maxiter <= 3'}
+                  'iterations': '<= 2', 'index lists': 'arbitrary sequences of length 0..3 (with repetition; the empty list included)', 'drivers': 'maxiter <= 3'}
     n = 4 if thorough else 3
     if run.want('gs'):
         for sname, struct in structures(n, thorough):
             for sweep in ('forward', 'backward', 'symmetric'):
                 for route in ('sparse', 'dense'):
                     if route == 'dense' and 'unsorted' in sname: continue
-                    for (its, il) in [(1, None), (2, None), (1, 2)] + ([(2, 3)] if thorough else []):
+                    for (its, il) in [(1, None), (2, None), (1, 2), (1, 0)] + ([(2, 3)] if thorough else []):        # il = 0: an EMPTY index list relaxes nothing
                         if not thorough and sname not in ('dense', 'tridiagonal', 'dense, unsorted columns') and its == 2: continue
                         st = sx.explore(gs_harness(cy, ns, n, struct, sweep, its, il, route), timeout_ms=60000, eqs_first=False)
                         bound = {'n': n, 'structure': sname, 'sweep': sweep, 'route': route, 'iterations': its, 'index list length': il}
                         run.absorb(st, 'gauss-seidel', bound=bound, sample={'obligation': 'textbook GS', **bound})
                         for cex in st.cex:
                             m = cex['model']
-                            idx = [int(sx.model_value(m, z3.Int('ix%d' % j))) for j in range(il)] if il else None
+                            idx = [int(sx.model_value(m, z3.Int('ix%d' % j))) for j in range(il)] if il is not None else None
                             w = {'n': n, 'indptr': [int(v) for v in struct[0]], 'indices': [int(v) for v in struct[1]], 'sweep': sweep, 'iterations': its, 'idx': idx, 'kind': 'gs'}
                             r = realbuild.run_real(REPLAY_GS, w, only=['relaxation_cy'])
                             run.report('gauss_seidel:%s:%s' % (route, sweep), 'Gauss-Seidel (%s, %s, %s, indices=%s): %s; real: %s' % (route, sname, sweep, idx, cex['name'], r['bad']), w, r['reproduced'])
@@ -486,6 +537,12 @@ def main():
             for cex in st.cex:
                 r = realbuild.run_real(REPLAY_ITER, {'x0': wx, 'active': wa}, only=[])
                 run.report('iterative_solve', '%s: %s; real run: %s' % (cex['name'], jsonable(sx.model_dict(cex['model'])), r['bad']), {'kind': 'driver', 'x0': wx, 'active': wa}, r['reproduced'])
+        st = sx.explore(hmultigrid_driver_harness(enc), timeout_ms=30000)
+        run.absorb(st, 'solve_hmultigrid', bound={'strategies/smoothers': 3, 'tol, maxiter': 'symbolic'}, sample={'obligation': 'solve_hmultigrid forwards tol / maxiter'})
+        for cex in st.cex:
+            r = realbuild.run_real(REPLAY_HMG, {}, only=['relaxation_cy'])
+            run.report('solve_hmultigrid', '%s: %s; real run: %s' % (cex['name'], jsonable(sx.model_dict(cex['model'])), r['bad']), {'kind': 'hmg'}, r['reproduced'])
+            break
         cy_i, ns_i = load_code(int_model=True)
         for kind in ('none', 'array', 'integer array'):
             st = sx.explore(twogrid_harness(ns_i if kind == 'integer array' else ns, 3, 2, kind), timeout_ms=30000, max_paths=2000)
